@@ -390,7 +390,7 @@ func init() {
 	register(&CheckDef{
 		ID:    "C06",
 		Title: "Merge preserves every key's value and actually reclaims the garbage",
-		Reach: []string{"done", "merge-done", "merged-record-checked", "fewer-files-out", "batch-committed", "second-generation", "many-files", "adopted-under-other-configuration", "other-spelling"},
+		Reach: []string{"done", "merge-done", "merged-record-checked", "fewer-files-out", "batch-committed", "second-generation", "many-files", "adopted-under-other-configuration", "other-spelling", "second-merge-over-leftover-directory"},
 		Jobs: func(tier string) []JobSpec {
 			var js []JobSpec
 			add := func(name string, params map[string]int64) {
@@ -403,6 +403,7 @@ func init() {
 				add("batch-k2", merge(base, p("k", 2, "ops", opPut|opBatch, "bmax", 2)))
 				add("btree-mmap-k2", merge(base, p("k", 2, "ops", opPut|opDelete, "index", 1, "io", 1, "post", 1)))
 				add("second-generation-k2", merge(base, p("premerge", 2, "k", 2, "ops", opPut|opDelete, "vlens", 1)))
+				add("merge-merge-without-restart-k2", merge(base, p("premerge", 2, "prestay", 1, "k", 2, "ops", opPut|opDelete, "vlens", 1)))
 				add("adopted-under-other-configuration-k2", merge(base, p("k", 2, "ops", opPut|opDelete, "vlens", 1, "post", 1, "r_io", 2, "r_index", 2, "r_shards", 3, "r_dfs_lo", 20, "r_dfs_hi", 60)))
 				add("adopted-under-other-spelling-k2", merge(base, p("spelling", 1, "k", 2, "ops", opPut|opDelete, "vlens", 1, "post", 1)))
 				add("second-generation-other-spelling-k2", merge(base, p("spelling", 1, "premerge", 2, "k", 2, "ops", opPut|opDelete, "vlens", 1)))
@@ -707,7 +708,7 @@ func init() {
 	register(&CheckDef{
 		ID:    "C18",
 		Title: "Hint files faithfully index the merged data files",
-		Reach: []string{"done", "hint-entry-checked", "several-output-files", "second-generation"},
+		Reach: []string{"done", "hint-entry-checked", "several-output-files", "second-generation", "second-merge-over-leftover-directory"},
 		Jobs: func(tier string) []JobSpec {
 			var js []JobSpec
 			add := func(name string, params map[string]int64) {
@@ -722,6 +723,8 @@ func init() {
 				add("k2-batch-btree", merge(base, p("k", 2, "ops", opPut|opBatch, "bmax", 2, "vlens", 1, "index", 1)))
 				add("k2-mmap", merge(base, p("k", 2, "ops", opPut|opDelete, "io", 1)))
 				add("second-merge-generation", merge(base, p("premerge", 2, "k", 2, "ops", opPut|opDelete, "vlens", 1)))
+				// two merges in one process, the first never adopted: the second runs over the leftover directory (S138)
+				add("merge-merge-without-restart-k2", merge(base, p("premerge", 2, "prestay", 1, "k", 2, "ops", opPut|opDelete, "vlens", 1)))
 				// DataFileSize smaller than some (or all) records: oversized records sit alone in their files, the merge
 				// output has several files and the hint indexes records larger than the limit
 				add("records-larger-than-dfs-k3", merge(base, p("k", 3, "ops", opPut|opDelete, "vlens", 3, "vbig", 25, "dfs_lo", 15, "dfs_hi", 45)))
